@@ -383,20 +383,38 @@ class Interp:
                 self.exec_block(s.finalbody, env)
         elif isinstance(s, ast.With):
             exits = []
-            for it in s.items:
-                v = self.eval(it.context_expr, env)
-                if isinstance(v, Obj) and isinstance(v.attrs.get("__enter__"), Stub):
-                    # an abstract object with observable enter/exit (e.g. a lock whose held-state a rule tracks)
-                    v.attrs["__enter__"].fn()
-                    if isinstance(v.attrs.get("__exit__"), Stub):
-                        exits.append(v.attrs["__exit__"])
-                if it.optional_vars is not None:
-                    self.assign(it.optional_vars, v, env)
             try:
+                for it in s.items:
+                    v = self.eval(it.context_expr, env)
+                    bound = v
+                    if isinstance(v, Obj) and isinstance(v.attrs.get("__enter__"), Stub):
+                        # an abstract object with observable enter/exit (e.g. a lock whose held-state a rule tracks)
+                        v.attrs["__enter__"].fn()
+                        if isinstance(v.attrs.get("__exit__"), Stub):
+                            exits.append(lambda *exc, _x=v.attrs["__exit__"]: _x.fn())
+                    elif isinstance(v, Native) and hasattr(v, "__enter__"):
+                        # a checker-side model of a library context manager (e.g. contextlib.ExitStack)
+                        bound = v.__enter__()
+                        exits.append(v.__exit__)
+                    if it.optional_vars is not None:
+                        self.assign(it.optional_vars, bound, env)
                 self.exec_block(s.body, env)
-            finally:
-                for x_ in reversed(exits):
-                    x_.fn()
+            except AbsRaise as e_:
+                left = _unwind(exits, e_)
+                if left is e_:
+                    raise
+                if left is not None:
+                    raise left
+            except BaseException:
+                # control flow of the evaluator itself (return / break / continue) or an analysis error: the exits run
+                left = _unwind(exits, None)
+                if left is not None:
+                    raise left
+                raise
+            else:
+                left = _unwind(exits, None)
+                if left is not None:
+                    raise left
         elif isinstance(s, (ast.Nonlocal, ast.Global, ast.Import, ast.ImportFrom)):
             pass
         elif isinstance(s, ast.Assert):
@@ -741,6 +759,22 @@ class Interp:
         if o is None:
             raise AbsRaise(f"AttributeError: NoneType.{attr}")
         raise AnalysisError(f"evaluator: attribute {attr} of {o!r} ({norm(node) if node is not None else ''})")
+
+
+def _unwind(exits, exc):
+    """Run the pending context-manager exits innermost first, like the interpreter does: an exit that raises replaces the
+    exception in flight, one that returns true swallows it.  -> the exception still in flight (or None)."""
+    cur = exc
+    while exits:
+        x_ = exits.pop()
+        try:
+            if cur is None:
+                x_(None, None, None)
+            elif x_("exc", cur.value, None):
+                cur = None
+        except AbsRaise as e2:
+            cur = e2
+    return cur
 
 
 def _load(t):
